@@ -17,7 +17,9 @@ INT_POOL = [0, 1, 2, 3, 4, 5, 7, 8, 9, 15, 16, 31, 32, 33, 63, 64, 65, 97, 127, 
             (1 << 62), (1 << 63) - 1, 1 << 63, (1 << 63) + 1, M64 - 1, M64, 0xAAAAAAAAAAAAAAAA, 0x5555555555555555,
             0x00FF00FF00FF00FF, 0x8000000080000000]
 FLT_POOL = [0, 32, 64, 96, 128, 160, 192, 256, 320, 16, 8, 1, 640, 6400, 65, 63, 4096]   # n/64
-STR_POOL = ["a", "A", "z", "ab", "abc", "abd", "hello", "Hello World", "ABCD", "xyz123", "", "ll", "lo", "0", "aB3 d"]
+STR_POOL = ["a", "A", "z", "ab", "abc", "abd", "hello", "Hello World", "ABCD", "xyz123", "", "ll", "lo", "0", "aB3 d",
+            # escape sequences (rendered as \\\\ \\" \\'): a backslash in the middle, at the end, alone, doubled; quotes of both kinds
+            "a\\b", "C:\\", "\\", "\\\\", "q\"q", "it's", "\"", "x\\\"y", "ab\\"]
 
 INT_BIN = ["add", "sub", "mul", "div", "mod", "pow", "and", "or", "xor", "shl", "shr", "mirror", "land", "lor", "lxor",
            "eq", "eqeq", "ne", "lt", "le", "gt", "ge"]
@@ -275,8 +277,18 @@ def run_asl_cases(bdir, wd, texts, tag, stats):
         if not idxs:
             return
         src = ["\tcpu 68000", "\toutradix 10"]
+        owner = {}
         for k, i in enumerate(idxs):
-            src.append('\tmessage "@%d@ \\{%s}"' % (k, texts[i]))
+            if "\\" in texts[i] or "'" in texts[i]:
+                # a formula with escape sequences cannot stand inside the outer string of MESSAGE (that string's own
+                # escape processing would come first): evaluate it by SET and print the symbol
+                src.append("c08v%d\tset %s" % (k, texts[i]))
+                owner[len(src)] = k
+                src.append('\tmessage "@%d@ \\{c08v%d}"' % (k, k))
+                owner[len(src)] = k
+            else:
+                src.append('\tmessage "@%d@ \\{%s}"' % (k, texts[i]))
+                owner[len(src)] = k
         stats["asl_runs"] += 1
         f = os.path.join(wd, "%s_%d.asm" % (tag, stats["asl_runs"]))
         open(f, "w").write("\n".join(src) + "\n")
@@ -298,7 +310,8 @@ def run_asl_cases(bdir, wd, texts, tag, stats):
             ln, num = int(m.group(1)), int(m.group(2))
             if num == 1970:
                 continue
-            errs.setdefault(ln - 3, num)
+            if ln in owner:
+                errs.setdefault(owner[ln], num)
         vals = {}
         for line in so.split(b"\n"):
             m = re.match(rb"^@(\d+)@ (.*)$", line)
